@@ -473,6 +473,7 @@ def mk_cmp(op, a, b):
 
 
 NOTNONE = set()       # symbol names assumed not None
+SYMKIND = {}          # symbol name -> 'callable' | 'array' | 'scalar' (input-form case analysis)
 
 
 def _known_not_none(x):
